@@ -16,6 +16,7 @@ import sys
 
 import z3
 
+from vlib import families as F
 from vlib import gasol, pool, report
 from vlib import evm_smt as E
 from vlib import pysym as P
@@ -270,6 +271,7 @@ def main():
     tier = report.tier()
     rep = report.Report("C14", "other")
     fam = class_family(3 if tier == "quick" else 4)
+    fam += F.f_mid_terminal()
     fam += long_family() if tier == "quick" else long_family(lengths=(20, 21, 22, 23, 24, 25, 30, 46), max_stores=3)
     tasks = [(gasol.optset(), [("heur", k) for k in ((1, 2, 3, 4) if tier == "quick" else (1, 2, 3, 4, 5))], 1)]
     for split in gasol.SPLITS:
